@@ -42,7 +42,22 @@ JudgeWait(o) ==
 
 (* a Task not completed TimeoutSeconds after entry fails with States.Timeout at that instant,
    unless the reply came first *)
+(* a Task under a machine-level TimeoutSeconds (execution started at instant 0), no reply: the timeout fires at   *)
+(* c = the earlier deadline, or the instant the Task's event is handled if that is later; from the execution's     *)
+(* deadline on it is the execution that has run too long -- no Catch may intercept it                             *)
+MinI(a, b) == IF a < b THEN a ELSE b
+JudgeTaskX(o) ==
+    LET td == o.entered + o.timeout * 1000
+        ed == o.exect * 1000
+        c == MaxI(o.handled, MinI(td, ed))
+    IN IF c >= ed
+       THEN (IF o.outcome = "FAILED" /\ o.at = c THEN "ok"
+             ELSE IF o.outcome = "CAUGHT" \/ o.outcome = "SUCCEEDED" THEN "ExecTimeoutUninterceptable"
+             ELSE "ExecTimeoutAt")
+       ELSE (IF o.outcome = o.expect /\ o.at = c THEN "ok" ELSE "TaskTimeoutAt")
+
 JudgeTask(o) ==
+    IF o.exect > 0 THEN JudgeTaskX(o) ELSE
     LET deadline == o.entered + o.timeout * 1000
         replied == o.reply >= 0 /\ o.reply < deadline
     IN IF replied
